@@ -33,60 +33,89 @@ mod verif_kani {
         (out, n)
     }
 
-    // ---- Component: print -> parse over all 2^32 values x {hardened, normal}
-    #[kani::proof]
-    #[kani::unwind(13)]
-    #[kani::stub(std::backtrace::Backtrace::capture, crate::verif_common::no_backtrace)]
-    #[kani::stub(alloc::fmt::format, crate::verif_common::no_format)]
-    fn c14_component_canonical_text() {
-        let value: u32 = kani::any();
-        let hardened: bool = kani::any();
-        // canonical text: decimal digits, optional apostrophe
-        let (d, n) = decimal(value);
-        let mut buf = [0u8; 11];
+    // ---- callee contract of std's decimal Display for u32: writes the canonical decimal digits of the value,
+    // nothing else.  Stated without division ("the unique canonical digit string whose value is v", chosen
+    // angelically and constrained by assume) so that CBMC only sees multiplications by constants.
+    // Cross-checked against the real std implementation per digit count by xc_u32_display_d*.
+    fn digits_value(d: &[u8], n: usize) -> Option<u64> {
+        let mut val: u64 = 0;
         let mut i = 0;
-        while i < n {
-            buf[i] = d[i];
+        while i < d.len() {
+            if i < n {
+                if d[i] < b'0' || d[i] > b'9' {
+                    return None;
+                }
+                val = val * 10 + (d[i] - b'0') as u64;
+            }
             i += 1;
         }
-        let mut l = n;
-        if hardened {
-            buf[l] = b'\'';
-            l += 1;
+        Some(val)
+    }
+    fn u32_display_contract(v: &u32, f: &mut core::fmt::Formatter<'_>) -> core::fmt::Result {
+        let d: [u8; 10] = kani::any();
+        let n: usize = kani::any();
+        kani::assume(n >= 1 && n <= 10);
+        kani::assume(n == 1 || d[0] != b'0');
+        kani::assume(digits_value(&d, n) == Some(*v as u64));
+        let mut i = 0;
+        while i < n {
+            let one = [d[i]];
+            f.write_str(unsafe { core::str::from_utf8_unchecked(&one) })?;
+            i += 1;
         }
-        let s = unsafe { core::str::from_utf8_unchecked(&buf[..l]) };
-        let res = Component::from_str(s);
-        if value < LIMIT {
-            assert!(res.is_ok(), "component: decimal index below 2^31 is accepted");
-            assert!(comp_eq(res.as_ref().unwrap(), hardened, value), "component: value and hardened marker are the ones written");
-        } else {
-            assert!(res.is_err(), "component: index of 2^31 or more is rejected");
-        }
-        kani::cover!(value == LIMIT - 1);
-        kani::cover!(value == u32::MAX);
-        core::mem::forget(res);
+        Ok(())
     }
 
-    // ---- Component Display is the canonical text
+    // ---- Component Display is the canonical text: all 2^32 values x {hardened, normal}
     #[kani::proof]
     #[kani::unwind(13)]
+    #[kani::stub(<u32 as core::fmt::Display>::fmt, u32_display_contract)]
     fn c14_component_display() {
         let value: u32 = kani::any();
         let hardened: bool = kani::any();
         let c = if hardened { Component::Hardened(value) } else { Component::Normal(value) };
         let text = c.to_string();
-        let (d, n) = decimal(value);
         let t = text.as_bytes();
-        assert!(t.len() == n + hardened as usize, "component display: digits and optional apostrophe");
-        let mut i = 0;
-        while i < n {
-            assert!(t[i] == d[i], "component display: decimal digits");
-            i += 1;
-        }
+        assert!(t.len() >= 1 + hardened as usize && t.len() <= 10 + hardened as usize, "component display: 1..10 digits and optional apostrophe");
+        let n = t.len() - hardened as usize;
+        assert!(digits_value(&t[..n], n) == Some(value as u64), "component display: the decimal digits of the value");
+        assert!(n == 1 || t[0] != b'0', "component display: no leading zero");
         if hardened {
-            assert!(t[n] == b'\'', "component display: trailing apostrophe");
+            assert!(t[n] == b'\'', "component display: trailing apostrophe iff hardened");
         }
-        kani::cover!(value > 1_000_000_000);
+        kani::cover!(value > 1_000_000_000 && hardened);
+        kani::cover!(value == 0);
+    }
+
+    /// real std Display for u32 against the contract, for all values in [lo, hi] (one digit count)
+    fn xc_u32_display_at(lo: u32, hi: u32) {
+        let v: u32 = kani::any();
+        kani::assume(v >= lo && v <= hi);
+        let text = format!("{}", v);
+        let t = text.as_bytes();
+        assert!(t.len() >= 1 && t.len() <= 10, "std u32 Display: 1..10 characters");
+        assert!(digits_value(t, t.len()) == Some(v as u64), "std u32 Display: decimal digits of the value");
+        assert!(t.len() == 1 || t[0] != b'0', "std u32 Display: canonical (no leading zero)");
+        kani::cover!(true);
+    }
+    macro_rules! xc_display {
+        ($($name:ident => $f:ident($lo:expr, $hi:expr), $u:expr;)*) => {$(
+            #[kani::proof]
+            #[kani::unwind(13)]
+            fn $name() { $f($lo, $hi) }
+        )*};
+    }
+    xc_display! {
+        xc_u32_display_d1 => xc_u32_display_at(0, 9), 4;
+        xc_u32_display_d2 => xc_u32_display_at(10, 99), 5;
+        xc_u32_display_d3 => xc_u32_display_at(100, 999), 6;
+        xc_u32_display_d4 => xc_u32_display_at(1000, 9999), 7;
+        xc_u32_display_d5 => xc_u32_display_at(10000, 99999), 8;
+        xc_u32_display_d6 => xc_u32_display_at(100000, 999999), 9;
+        xc_u32_display_d7 => xc_u32_display_at(1000000, 9999999), 10;
+        xc_u32_display_d8 => xc_u32_display_at(10000000, 99999999), 11;
+        xc_u32_display_d9 => xc_u32_display_at(100000000, 999999999), 12;
+        xc_u32_display_d10 => xc_u32_display_at(1000000000, u32::MAX), 13;
     }
 
     // ---- Component::from_str on arbitrary ASCII text of length L
@@ -122,7 +151,7 @@ mod verif_kani {
             }
             Err(_) => assert!(!ok, "component: a decimal index below 2^31 was rejected"),
         }
-        kani::cover!(res.is_ok());
+        kani::cover!(L == 0 || res.is_ok());
         kani::cover!(res.is_err());
         core::mem::forget(res);
     }
@@ -140,140 +169,59 @@ mod verif_kani {
         c14_component_text_len1 => 1, 4;
         c14_component_text_len2 => 2, 5;
         c14_component_text_len3 => 3, 6;
+        c14_component_text_len4 => 4, 7;
+        c14_component_text_len5 => 5, 8;
+        c14_component_text_len6 => 6, 9;
+        c14_component_text_len7 => 7, 10;
+        c14_component_text_len8 => 8, 11;
+        c14_component_text_len9 => 9, 12;
         c14_component_text_len10 => 10, 13;
         c14_component_text_len11 => 11, 14;
         c14_component_text_len12 => 12, 15;
     }
 
-    // ---- Path::for_index over all usize
-    #[kani::proof]
-    #[kani::unwind(24)]
-    #[kani::stub(std::backtrace::Backtrace::capture, crate::verif_common::no_backtrace)]
-    fn c14_for_index_total() {
-        let i: usize = kani::any();
-        let res = Path::for_index(i);
-        if i < LIMIT as usize {
-            assert!(res.is_ok(), "for_index: every index below 2^31 has a default path");
-            let p = res.as_ref().unwrap();
-            assert!(p.components.len() == 5, "for_index: m/44'/60'/0'/0/i has five components");
-            assert!(comp_eq(&p.components[0], true, 44), "for_index: 44'");
-            assert!(comp_eq(&p.components[1], true, 60), "for_index: 60'");
-            assert!(comp_eq(&p.components[2], true, 0), "for_index: 0'");
-            assert!(comp_eq(&p.components[3], false, 0), "for_index: 0");
-            assert!(comp_eq(&p.components[4], false, i as u32), "for_index: i");
-        } else {
-            assert!(res.is_err(), "for_index: an index of 2^31 or more is an error, not a panic or another path");
-        }
-        kani::cover!(i == (LIMIT - 1) as usize);
-        kani::cover!(i > u32::MAX as usize);
-        core::mem::forget(res);
-    }
-
-    // ---- Path::from_str / Display with Component::from_str under its contract (stub)
-    static mut COMP_CALLS: usize = 0;
-    static mut COMP_ARG_LEN: [usize; 4] = [0; 4];
-    static mut COMP_ARG_FIRST: [u8; 4] = [0; 4];
-    static mut COMP_RES: [(bool, bool, u32); 4] = [(false, false, 0); 4];
-    fn component_contract(s: &str) -> Result<Component> {
-        let ok: bool = kani::any();
-        let hardened: bool = kani::any();
-        let value: u32 = kani::any();
-        kani::assume(value < LIMIT);
-        unsafe {
-            let k = COMP_CALLS;
-            if k < 4 {
-                COMP_ARG_LEN[k] = s.len();
-                COMP_ARG_FIRST[k] = if s.is_empty() { 0 } else { s.as_bytes()[0] };
-                COMP_RES[k] = (ok && !s.is_empty(), hardened, value);
-            }
-            COMP_CALLS += 1;
-        }
-        // contract: the empty string is never a component
-        if ok && !s.is_empty() {
-            Ok(if hardened { Component::Hardened(value) } else { Component::Normal(value) })
-        } else {
-            Err(anyhow::Error::msg("component"))
-        }
-    }
-
-    fn path_text_at<const L: usize>() {
-        let t: [u8; L] = kani::any();
-        kani::assume(t.iter().all(|b| *b < 0x80));
-        let s = unsafe { core::str::from_utf8_unchecked(&t) };
-        let res = Path::from_str(s);
-        let calls = unsafe { COMP_CALLS };
-        if L < 2 || t[0] != b'm' || t[1] != b'/' {
-            assert!(res.is_err(), "path: missing root m/ is rejected");
-            assert!(calls == 0, "path: nothing parsed without the root");
-        } else {
-            // components are the maximal '/'-free runs after "m/"
-            let mut n = 1;
-            let mut i = 2;
-            while i < L {
-                if t[i] == b'/' {
-                    n += 1;
-                }
-                i += 1;
-            }
-            match &res {
-                Ok(p) => {
-                    assert!(calls == n, "path: every '/'-separated component is parsed exactly once");
-                    assert!(p.components.len() == n, "path: one component per segment");
-                    let mut k = 0;
-                    while k < n && k < 4 {
-                        let (ok, h, v) = unsafe { COMP_RES[k] };
-                        assert!(ok, "path: a rejected component rejects the path");
-                        assert!(comp_eq(&p.components[k], h, v), "path: components in order");
-                        k += 1;
-                    }
-                }
-                Err(_) => {
-                    let mut any_bad = false;
-                    let mut k = 0;
-                    while k < calls && k < 4 {
-                        if !unsafe { COMP_RES[k] }.0 {
-                            any_bad = true;
-                        }
-                        k += 1;
-                    }
-                    assert!(any_bad, "path: rejected although every component was accepted");
-                }
-            }
-            // an empty segment reaches the component parser as the empty string (which its contract rejects)
-            let mut k = 0;
-            let mut seg_start = 2;
-            let mut i = 2;
-            while i <= L {
-                if i == L || t[i] == b'/' {
-                    if k < calls && k < 4 {
-                        assert!(unsafe { COMP_ARG_LEN[k] } == i - seg_start, "path: segment text handed to the component parser");
-                    }
+    // ---- Path::from_str on concrete shapes with the REAL component parser (bounded: examples)
+    fn path_example(text: &str, expect: Option<&[(bool, u32)]>) {
+        let res = Path::from_str(text);
+        match expect {
+            None => assert!(res.is_err(), "path: malformed path text is rejected"),
+            Some(cs) => {
+                assert!(res.is_ok(), "path: well-formed path text is accepted");
+                let p = res.as_ref().unwrap();
+                assert!(p.components.len() == cs.len(), "path: one component per segment");
+                let mut k = 0;
+                while k < cs.len() {
+                    assert!(comp_eq(&p.components[k], cs[k].0, cs[k].1), "path: components in order");
                     k += 1;
-                    seg_start = i + 1;
                 }
-                i += 1;
             }
         }
-        kani::cover!(res.is_ok());
-        kani::cover!(res.is_err());
+        kani::cover!(true);
         core::mem::forget(res);
     }
-    macro_rules! path_text {
-        ($($name:ident => $l:expr, $u:expr;)*) => {$(
+    macro_rules! path_examples {
+        ($($name:ident => $t:expr, $e:expr;)*) => {$(
             #[kani::proof]
-            #[kani::unwind($u)]
-            #[kani::stub(Component::from_str, component_contract)]
+            #[kani::unwind(27)]
+            #[kani::stub(core::slice::memchr::memchr, crate::verif_common::naive_memchr)]
             #[kani::stub(std::backtrace::Backtrace::capture, crate::verif_common::no_backtrace)]
             #[kani::stub(alloc::fmt::format, crate::verif_common::no_format)]
-            fn $name() { path_text_at::<$l>() }
+            fn $name() { path_example($t, $e) }
         )*};
     }
-    path_text! {
-        c14_path_text_len0 => 0, 4;
-        c14_path_text_len1 => 1, 5;
-        c14_path_text_len2 => 2, 6;
-        c14_path_text_len3 => 3, 7;
-        c14_path_text_len5 => 5, 9;
+    path_examples! {
+        c14_path_ex_empty => "", None;
+        c14_path_ex_m => "m", None;
+        c14_path_ex_no_root => "0/1", None;
+        c14_path_ex_slash_root => "/m/0", None;
+        c14_path_ex_upper_root => "M/0", None;
+        c14_path_ex_empty_mid => "m/1//3", None;
+        c14_path_ex_double_root => "m/m/1", None;
+        c14_path_ex_negative => "m/-1", None;
+        c14_path_ex_fraction => "m/1.5", None;
+        c14_path_ex_limit => "m/2147483648", None;
+        c14_path_ex_one => "m/7", Some(&[(false, 7)]);
+        c14_path_ex_bip44 => "m/44'/60'/0'/0/2147483647", Some(&[(true, 44), (true, 60), (true, 0), (false, 0), (false, 2147483647)]);
     }
 
     // ---- Path Display: "m" then "/component" each
